@@ -393,6 +393,7 @@ func run(t *rapid.T, r *rec.Recorder) {
 	acts["ackAttempt3"] = m.Wrap(c.ackAttempt)
 	acts["ackUnreceived"] = m.Wrap(c.ackUnreceived)
 	acts["limit"] = m.Wrap(m.ActLimit)
+	acts["fundMoody"] = m.Wrap(m.ActFundMoody)
 	acts[""] = func(t *rapid.T) { m.T = t; c.check() }
 	t.Repeat(acts)
 	var shape []string
